@@ -35,7 +35,8 @@ RULE = ("for each injector: random small data sets (0..6 rows quick / 0..8 thoro
         "alphabet, feature cells incl. ties, -0.0, NaN, inf) x EVERY window 0<=from<=to<=n x every column choice / class pair "
         "drawn from present, absent and equal classes x layouts {C, Fortran, strided view, reversed view, DataFrame} "
         "(+ int64 arrays for the structural injectors); a few windows reaching past the data for the slice-based injectors. "
-        "Call sequences: for every injector class 2-4 calls on ONE reused instance alternating DataFrame and ndarray inputs with "
+        "Dirichlet alpha dicts come in ascending and in descending / shuffled key order with clearly unequal weights; class k must get "
+        "exactly the component of the seed-recomputed draw at k's position in the dict. Call sequences: for every injector class 2-4 calls on ONE reused instance alternating DataFrame and ndarray inputs with "
         "different labels / shapes / arguments, each call judged exactly like a single call (plus the attribute _columns against the model). "
         "np.random.seed(case seed) before every call; draws are recomputed with the same seed for the model. "
         "Non-trivial: the window is non-empty and the output differs from the input (resampling: window holds >= 2 different rows; "
@@ -188,11 +189,16 @@ def run_one(case, shared=None):
         if hasattr(inj, "_dirichlet_distribution") and [float(v) for v in inj._dirichlet_distribution] != orc["dir"]:
             orc["dir_replay_mismatch"] = True
         orc["p"], orc["positions"] = None, []
+        # the class -> probability table the injector really handed on (attribute of the outer instance)
+        table = getattr(inj, "_dirichlet_probabilities", None)
+        orc["dir_probs"] = None if table is None else [[float(kk), float(vv)] for kk, vv in table.items()]
         if out is not None:
             helper = LabelProbabilityInjector()
             obj2, _ = build_input(case)
             try:
-                helper(obj2, case["from"], case["to"], colarg(case, a["col"]), dict(zip([kv[0] for kv in a["alpha"]], d)))
+                # _p_distribution of the inner call is not reachable: recompute it from the table really passed on
+                helper(obj2, case["from"], case["to"], colarg(case, a["col"]),
+                       dict(table) if table is not None else dict(zip([kv[0] for kv in a["alpha"]], d)))
                 p = [float(v) for v in helper._p_distribution]
                 orc["p"] = p
                 if p:
@@ -403,12 +409,34 @@ def direct_check(case, obs):
                 elif (inc > 0) != (obs["oracle"]["signs"][j - 1] > 0):
                     msgs.append(f"brownian: increment {j} has the opposite sign of the replayed draw")
     elif k in ("prob", "dirichlet"):
+        if k == "dirichlet":
+            msgs += check_dirichlet_assignment(case, obs)
         wrows = [rows[i] for i in win]
         for i in win:
             if not any(rows_same(out[i], r) for r in wrows):
                 msgs.append(f"{k}: new row {i} = {out[i]} is not a row of the old window {wrows}")
         msgs += check_pdist(case, obs, win)
     return msgs[:4]
+
+
+def check_dirichlet_assignment(case, obs):
+    """class k must get exactly draw[position of k in the alpha dict], the draw being made with the alpha values in
+    dict order (recomputed from the seed)"""
+    orc, alpha = obs["oracle"], case["args"]["alpha"]
+    msgs = []
+    if orc.get("dir_replay_mismatch"):
+        msgs.append(f"dirichlet: the recorded draw differs from np.random.dirichlet({[kv[1] for kv in alpha]}) under the same seed")
+    table = orc.get("dir_probs")
+    if table is None:
+        return msgs + ["dirichlet: the class-probability table handed on is not observable"]
+    got = {kv[0]: kv[1] for kv in table}
+    if sorted(got) != sorted(kv[0] for kv in alpha):
+        msgs.append(f"dirichlet: table has classes {sorted(got)}, alpha has {sorted(kv[0] for kv in alpha)}")
+    for pos, (key, weight) in enumerate(alpha):
+        if key in got and not same(got[key], orc["dir"][pos]):
+            msgs.append(f"dirichlet: class {key} (weight {weight}, position {pos} of alpha {alpha}) was given probability "
+                        f"{got[key]!r}, its component of the draw is {orc['dir'][pos]!r} (draw {orc['dir']})")
+    return msgs[:2]
 
 
 def check_pdist(case, obs, win):
@@ -723,6 +751,10 @@ def gen_cases(ctx):
          "from": 0, "to": 0, "args": {"col": 1, "size": 0, "rs": 3}, "seed": 2},
     ]
     ctx.stats["repaired_defect_witnesses"] = len(cases)
+    # alpha dict in descending key order with unequal weights ({1: 2, 0: 8}): class 0 must get the second component
+    cases.append({"inj": "dirichlet", "layout": "C", "dtype": "float",
+                  "rows": [[0.0, 10.0], [1.0, 11.0], [0.0, 12.0], [1.0, 13.0], [1.0, 14.0], [0.0, 15.0]], "w": 2,
+                  "names": ["a", "b"], "from": 0, "to": 6, "args": {"col": 0, "alpha": [[1.0, 2.0], [0.0, 8.0]]}, "seed": 3})
     seedc = [0]
 
     def nseed():
@@ -792,6 +824,8 @@ def gen_cases(ctx):
                     add("prob", rows, w, f, t, {"col": lc, "cp": cp})
                 if present:
                     add("dirichlet", rows, w, f, t, {"col": lc, "alpha": [[x, float(rng.choice([1, 1, 2, 4, 0.5]))] for x in present]})
+                    if len(present) > 1:
+                        add("dirichlet", rows, w, f, t, {"col": lc, "alpha": dirichlet_alpha(rng, present)})
                     if len(present) > 1 and rng.random() < 0.3:   # not all labels given weights
                         add("dirichlet", rows, w, f, t, {"col": lc, "alpha": [[x, float(rng.choice([1, 3]))] for x in present[:-1]]})
             # ---- cover
@@ -844,6 +878,8 @@ def gen_cases(ctx):
         add("lswap", rows, w, f, t, {"col": lc, "k1": alpha[0], "k2": alpha[1]})
         add("prob", rows, w, f, t, {"col": lc, "cp": rng.choice(prob_dicts(rng, present))})
         add("dirichlet", rows, w, f, t, {"col": lc, "alpha": [[x, float(rng.choice([1, 2, 5]))] for x in present]})
+        if len(present) > 1:
+            add("dirichlet", rows, w, f, t, {"col": lc, "alpha": dirichlet_alpha(rng, present)})
         add("cover", rows, w, 0, n, {"col": lc, "size": rng.randint(0, n), "rs": rng.choice([None, rng.randint(0, 99)])})
     # ---- call sequences on ONE reused instance: 2-4 calls alternating DataFrame / ndarray inputs with different
     #      column labels, shapes, windows and arguments; each call is judged like a single call
@@ -862,7 +898,8 @@ def gen_cases(ctx):
                 "lswap": lambda: {"col": lc, "k1": alpha[0], "k2": alpha[1]},
                 "join": lambda: {"col": lc, "k1": alpha[0], "k2": alpha[1], "knew": 7.0},
                 "prob": lambda: {"col": lc, "cp": rng.choice(prob_dicts(rng, present)[:4])},
-                "dirichlet": lambda: {"col": lc, "alpha": [[x, float(rng.choice([1, 2, 4]))] for x in present]},
+                "dirichlet": lambda: {"col": lc, "alpha": (dirichlet_alpha(rng, present) if len(present) > 1 and rng.random() < 0.6
+                                                            else [[x, float(rng.choice([1, 2, 4]))] for x in present])},
                 "cover": lambda: {"col": lc, "size": rng.randint(0, n), "rs": rng.choice([None, rng.randint(0, 99)])}}[inj]()
         names = rng.sample(NAMES + ["x", "y", "z", "label", "f0"], w)
         return {"inj": inj, "layout": layout, "dtype": "float", "rows": rows, "w": w, "names": names,
@@ -884,6 +921,18 @@ def gen_cases(ctx):
         cases.append(freq_case(rng, nseed()))
         ctx.stats["cases_freq"] = ctx.stats.get("cases_freq", 0) + 1
     return cases
+
+
+def dirichlet_alpha(rng, present):
+    """alpha dict whose keys are NOT in ascending order (descending or shuffled) with clearly unequal weights"""
+    keys = list(present)
+    if rng.random() < 0.5:
+        keys.reverse()
+    else:
+        while keys == sorted(keys):
+            rng.shuffle(keys)
+    weights = rng.sample([0.5, 1.0, 3.0, 8.0, 20.0, 50.0], len(keys))
+    return [[x, wgt] for x, wgt in zip(keys, weights)]
 
 
 def prob_dicts(rng, present):
